@@ -97,6 +97,20 @@ func c01Node(env *fw.Env, i int64) (*e5.Node, string) {
 		d := 1 + int(i/8)%64
 		return gen.Chain(r, d), fmt.Sprintf("chain-depth-%d", d)
 	case 6:
+		if int(i/8)%3 == 0 {
+			// many EMPTY lists decoded before (and next to) a deep part: the depth account of a decoder is touched
+			// once per list entered and must come back down for every one of them, the empty ones included
+			root := &e5.Node{FC: e5.List}
+			e := []int{1, 2, 30, 62, 63, 64, 65, 100, 300}[r.IntN(9)]
+			for j := 0; j < e; j++ {
+				root.Kids = append(root.Kids, &e5.Node{FC: e5.List})
+			}
+			if r.IntN(2) == 0 {
+				root.Kids = append(root.Kids, gen.Chain(r, 63)) // root + 63 = the deepest list sits at the allowed depth 64
+			}
+
+			return root, "empty-lists-before-depth"
+		}
 		fc := gen.LeafCodes[int(i/8)%len(gen.LeafCodes)]
 		ks := []int{1, 4, 5, 6, 20, 21, 22, 84, 85, 86, 212, 213, 214, 340, 341, 342}
 		return gen.ManyLeaves(r, fc, ks[r.IntN(len(ks))]), "slab-boundary-list"
